@@ -95,14 +95,15 @@ func (r *refMap) sortedKeys() []uint64 {
 // ---------------------------------------------------------------- compact map under test
 
 type cmHarness struct {
-	cm        *needle_map.CompactMap
-	db        *needle_map.MemDb // nil when not driven
-	ref       *refMap
-	ops       []string
-	outOfOrd  bool
-	far       bool
-	maxSect   int
-	quiet     bool // inside a long ascending run: no per-operation trace line and lookup (the final sweep looks everything up)
+	cm       *needle_map.CompactMap
+	db       *needle_map.MemDb // nil when not driven
+	ref      *refMap
+	ops      []string
+	outOfOrd bool
+	far      bool
+	maxSect  int
+	ovKeys   []uint64 // keys seen in an overflow list right after their insertion
+	quiet    bool     // inside a long ascending run: no per-operation trace line and lookup (the final sweep looks everything up)
 }
 
 func newCmHarness(withMemDb bool) *cmHarness {
@@ -119,7 +120,9 @@ func (h *cmHarness) close() {
 	}
 }
 
-func (h *cmHarness) logf(format string, a ...interface{}) { h.ops = append(h.ops, fmt.Sprintf(format, a...)) }
+func (h *cmHarness) logf(format string, a ...interface{}) {
+	h.ops = append(h.ops, fmt.Sprintf(format, a...))
+}
 
 func (h *cmHarness) trace() string {
 	ops := h.ops
@@ -179,6 +182,9 @@ func (h *cmHarness) set(t fataler, k uint64, units int64, size int32) bool {
 	}
 	if !h.quiet {
 		h.checkKey(t, k)
+		if prev == nil && len(h.ovKeys) < 64 && h.cm.VerifInOverflow(types.NeedleId(k)) {
+			h.ovKeys = append(h.ovKeys, k)
+		}
 	}
 	return false
 }
